@@ -42,6 +42,7 @@ import (
 	"strings"
 
 	"golang.org/x/tools/go/ssa"
+	"golang.org/x/tools/go/ssa/ssautil"
 )
 
 const bndInf = int64(1) << 50
@@ -213,6 +214,41 @@ type bndEngine struct {
 	mutStruct map[*types.TypeName]bool // struct types overwritten as a whole through a pointer/element
 	scanned   bool
 	debug     bool
+	prog      *ssa.Program // own lazily-built SSA program (only the packages that are needed)
+}
+
+// ssaFunc returns the SSA form of fn, building only fn's package (whole-engine loads would
+// otherwise pay for SSA of every module package). If the framework's program exists, it is used.
+func (e *bndEngine) ssaFunc(fn *types.Func) *ssa.Function {
+	if e.p.ssaProg != nil {
+		return e.p.SSAFunc(fn)
+	}
+	if e.prog == nil {
+		e.prog, _ = ssautil.AllPackages(e.p.Roots, ssa.InstantiateGenerics)
+	}
+	if fn.Pkg() == nil {
+		return nil
+	}
+	sp := e.prog.Package(fn.Pkg())
+	if sp == nil {
+		return nil
+	}
+	sp.Build()
+	return e.prog.FuncValue(fn)
+}
+
+// moduleFunc: the callee belongs to the analysed module (its body may be summarised); its package
+// is built on demand.
+func (e *bndEngine) moduleFunc(f *ssa.Function) bool {
+	if f.Pkg == nil || f.Pkg.Pkg == nil {
+		return false
+	}
+	pk := e.p.ByPath[f.Pkg.Pkg.Path()]
+	if pk == nil || pk.Module == nil || !pk.Module.Main {
+		return false
+	}
+	f.Pkg.Build()
+	return len(f.Blocks) > 0
 }
 
 var bndEngines = map[*Prog]*bndEngine{}
@@ -481,6 +517,11 @@ func (a *bndAn) ckey(v ssa.Value) (string, []ssa.Value) {
 	case *ssa.UnOp:
 		if x.Op == token.MUL {
 			if fa, ok := x.X.(*ssa.FieldAddr); ok {
+				if al, isAlloc := fa.X.(*ssa.Alloc); isAlloc && bndSimpleLocal(al) {
+					// a local struct variable that is only stored as a whole and read field-wise:
+					// its fields are stable between two whole stores (forgotten at each store)
+					return fmt.Sprintf("S(v%d.%d)", a.id(al), fa.Field), []ssa.Value{al}
+				}
 				if k, d, ok := a.akey(fa); ok {
 					return "L" + k, d
 				}
@@ -492,6 +533,39 @@ func (a *bndAn) ckey(v ssa.Value) (string, []ssa.Value) {
 		}
 	}
 	return fmt.Sprintf("v%d", a.id(v)), []ssa.Value{v}
+}
+
+// bndSimpleLocal: a non-escaping local variable that is written only by whole-value stores and
+// read only directly or through loads of its fields.
+func bndSimpleLocal(al *ssa.Alloc) bool {
+	if al.Heap || al.Referrers() == nil {
+		return false
+	}
+	for _, r := range *al.Referrers() {
+		switch x := r.(type) {
+		case *ssa.Store:
+			if x.Addr != al || x.Val == al {
+				return false
+			}
+		case *ssa.UnOp:
+			if x.Op != token.MUL {
+				return false
+			}
+		case *ssa.FieldAddr:
+			if x.Referrers() == nil {
+				return false
+			}
+			for _, rr := range *x.Referrers() {
+				if u, ok := rr.(*ssa.UnOp); !ok || u.Op != token.MUL {
+					return false
+				}
+			}
+		case *ssa.DebugRef:
+		default:
+			return false
+		}
+	}
+	return true
 }
 
 // akey: key of a stable field address (pointer value + immutable-after-construction fields).
@@ -1166,7 +1240,7 @@ func (a *bndAn) applyResult(w *bndDBM, call *ssa.Call, idx int, self bndTerm) bo
 		}
 		return ok
 	}
-	if len(callee.Blocks) > 0 && callee.Pkg != nil && a.e.p.ssaPkgs[callee.Pkg.Pkg] != nil {
+	if a.e.moduleFunc(callee) {
 		if r := a.e.analyse(callee); r != nil && r.retSeen && !r.diverged && idx < len(r.retLo) {
 			if r.retLo[idx] > -bndInf {
 				ok = a.le(w, bndTerm{0, r.retLo[idx], true}, self, 0) && ok
@@ -1316,6 +1390,11 @@ func (a *bndAn) step(w *bndDBM, ins ssa.Instruction) bool {
 	checks, post, pos, isOb := a.checksOf(ins)
 	if isOb && a.recording {
 		a.record(w, ins, checks, pos)
+	}
+	if st, isStore := ins.(*ssa.Store); isStore {
+		if al, isAlloc := st.Addr.(*ssa.Alloc); isAlloc {
+			a.forgetVal(w, al) // fields of a simple local read after this store belong to the new value
+		}
 	}
 	ok := a.define(w, ins)
 	for _, p := range post {
@@ -1683,14 +1762,13 @@ func (a *bndAn) dump() {
 // function and distinct source expression, keyed "<Type.Func>/<expression>".
 func BoundsCheckFuncs(c *Ctx, rule string, fns []*types.Func) {
 	e := bndEngineFor(c.P)
-	c.P.SSA()
 	for _, f := range fns {
 		if f == nil {
 			c.Undecided(rule, "function", token.NoPos, "a kernel function of the rule's frozen list was not found")
 			continue
 		}
 		name := bndShortName(f)
-		sf := c.P.SSAFunc(f)
+		sf := e.ssaFunc(f)
 		if sf == nil || len(sf.Blocks) == 0 {
 			c.Undecided(rule, name, f.Pos(), "no SSA body for "+FullName(f))
 			continue
